@@ -9,6 +9,16 @@ TRUSTED_BASE = [
 ]
 
 PROPS = {
+    "C04": {
+        "n": {"quick": 240, "thorough": 4000},
+        "judge": True,
+        "needs_server": False,
+        "trivial_outs": set(),
+        "rule": "cases = n command histories over TCP (ZADD ZREM ZSCORE ZCARD ZRANK ZREVRANK ZRANGE ZREVRANGE ZRANGEBYSCORE ZREVRANGEBYSCORE ZCOUNT ZINCRBY ZPOPMIN ZPOPMAX mixed with DEL/EXPIRE/RENAME/TYPE on a colliding key/member/score pool, 1 in 12 a NaN history, each ending with a dump of every pool key) + 2.5 n in-process histories on SkipList<Vec<u8>,f64> (insert/remove/get_rank/get_by_rank/range_by_rank/range_by_score, state dump after every mutation; one third with NaN scores); one evaluation = one command or skip-list operation compared between the implementation and the extracted Gallina model; distinct = distinct (operation, output) pairs",
+        "explanation": "theorems: comparator is a total preorder, tower search = linear search for all heights, skip-list invariant preserved by insert/remove for all non-NaN scores and all heights, refinement to a sorted duplicate-free list, rank/range agreement, ZRANGE/ZREVRANGE index translation = Redis rule outside the recorded classes, last member removed => key removed; tie: differential run of the server (TCP) and of SkipList (in process) against the extracted model + property oracle on the implementation's outputs",
+        "trusted_base": ["oracle: Rust std f64 <-> decimal text (the harness passes parse::<f64>() bits of every score-like argument to the model and compares score replies after re-parsing them to bits); the f64 sum of ZINCRBY is taken from the implementation's reply"],
+        "assumptions": ["no stored score is NaN (class zset-nan is a recorded finding; NaN states are modelled exactly only at the skip-list level)"],
+    },
     "C20": {
         "n": {"quick": 400, "thorough": 6000},
         "judge": True,
